@@ -441,7 +441,8 @@ impl Ctx {
 
     fn wants(&self, section: &str) -> bool {
         match &self.replay {
-            None => true,
+            // VERIF_ONLY_SECTION: development aid (tools/dev.sh), never set by a registered check
+            None => std::env::var("VERIF_ONLY_SECTION").map_or(true, |only| only.is_empty() || only == section),
             Some((s, _)) => s == section,
         }
     }
